@@ -135,7 +135,8 @@ def fkm_process(o):
     ir0 = o.int('ir0')
     mt0 = o.real('max_turn0')
     o.assume(ir0 >= 1, mt0 >= 0)
-    det.fields.update({'_ir': SV(ir0), '_residuals': res, '_max_turn': SV(mt0), '_recorder': Opaque(('external', 'recorder'))})
+    init = {'_ir': SV(ir0), '_residuals': res, '_max_turn': SV(mt0), '_recorder': Opaque(('external', 'recorder'))}
+    det.fields.update(init)
     o.track(det)
     turns = o.array('turns', 'real')
     tix = o.array('turns_index', 'int', n=turns.n)
@@ -143,19 +144,63 @@ def fkm_process(o):
     o.spec(GEN + 'AbstractDetector._new_turns', lambda I, args, kw: (tix, turns))
     P = FKM + '.process'
 
-    def outer(v):
-        return z3.And(v.ir >= 1, len_(v.from_vals) == len_(v.to_vals), len_(v.from_vals) >= 0,
-                      v['self._ir'] == v.ir, v['self._max_turn'] == v.max_turn, v.max_turn >= 0, v['self._residuals'].n >= 0)
+    def base(v):
+        return z3.And(v.ir >= 1, len_(v.from_vals) == len_(v.to_vals), len_(v.from_vals) >= 0, v.max_turn >= 0, v['self._residuals'].n >= 0)
+
+    def mirrored(v):
+        return z3.And(base(v), v['self._ir'] == v.ir, v['self._max_turn'] == v.max_turn)
 
     def inner(v):
         return z3.And(v.ir >= 1, len_(v.from_vals) == len_(v.to_vals), v.max_turn >= 0, v['self._residuals'].n >= 0)
-    o.loop(P, 0, outer)
     o.loop(P, 1, inner, lambda v: z3.If(v.loop_assumed, v['self._residuals'].n + 1, z3.IntVal(0)))
-    ps = o.paths(lambda: o.I.call(o.method(det, 'process'), [Opaque('samples')]))
+    qual = 'pylife.stress.rainflow.fkm::FKMDetector.process'
+
+    def closure_goals(ps):
+        out = []
+        for p in ps:
+            if p.kind == 'return':
+                st = p.return_states.get(qual)
+                if st is None or 'ir' not in st or 'self._ir' not in st:
+                    raise Unbound('no exit state of FKMDetector.process with ir / self._ir')
+                out.append(z3.Implies(z3.And(*p.pc) if p.pc else z3.BoolVal(True), z3.And(st['self._ir'] == st['ir'], st['self._max_turn'] == st['max_turn'])))
+        return out
+
+    # Two candidate invariants for the outer loop (the statement to prove is about the EXIT state: the fields hold the final IR and largest |turn|):
+    # "fields mirror the locals at every loop head" fits code that writes the fields back in every iteration, the plain one fits code that writes them back once after
+    # the loop.  The first candidate under which the write-back obligation holds is used (a first version demanded the mirrored invariant and alarmed on a harmless
+    # hoisting of the two assignments out of the loop).
+    from pv.api import check_sat
+    chosen = None
+    for cand in (mirrored, base):
+        o.loop(P, 0, cand)
+        n_items = len(o.items)
+        det.fields.clear()
+        det.fields.update(init)          # the receiver as the contract describes it (an exploration leaves the last path's state in it)
+        ps = o.paths(lambda: o.I.call(o.method(det, 'process'), [Opaque('samples')]))
+        goals = closure_goals(ps)
+        ok = bool(goals)
+        for g in goals + [z3.Implies(z3.And(*ob.hyps) if ob.hyps else z3.BoolVal(True), ob.goal) for p in ps for ob in p.obs if ob.kind == 'inv-preserve' and '#loop0' in ob.label]:
+            st, _, _, _ = check_sat(list(o.hyps) + [z3.Not(g)], timeout_ms=5000, use_cvc5=False)
+            if st != 'unsat':
+                ok = False
+                break
+        if ok or cand is base:
+            chosen = cand if ok else None
+            break
+        del o.items[n_items:]
+    if chosen is None:
+        # neither candidate carries the write-back: report against the mirrored one (the form of the reference tree)
+        o.loop(P, 0, mirrored)
+        det.fields.clear()
+        det.fields.update(init)
+        ps = o.paths(lambda: o.I.call(o.method(det, 'process'), [Opaque('samples')]))
+        goals = closure_goals(ps)
     for p in ps:
         if p.kind == 'raise':
             o.prove(f'no exception path ({p.exc.exc_type}, line {p.exc.lineno})', z3.BoolVal(False), under=p.pc, kind='no-raise')
         o.take_side_obligations(p, 'process')
+    o.prove('write-back: when process returns the fields hold the final IR and the final largest |turn| (state carried to the next chunk)', z3.And(*goals) if goals else z3.BoolVal(False))
+    o.note(f"outer-loop invariant used: {'fields mirror the locals at every loop head' if chosen is mirrored else 'plain (fields written back after the loop)' if chosen is base else 'none fits'}")
     rets = [p for p in ps if p.kind == 'return']
     o.prove('process returns', z3.BoolVal(len(rets) >= 1))
     calls = [c for c in o.I.external_calls if c[1] == 'record_values']
@@ -170,7 +215,7 @@ def fkm_step(o):
     (residual stack, primary-path counter IR, largest |turn| so far, recorded pairs): with IZ = stack size, J / I the two topmost entries and K the current turn,
     IZ > IR and |K-J| >= |J-I| closes the hysteresis (I, J) (recorded as from = I, to = J, both popped; the rule is applied again iff both lie strictly inside the largest
     |turn|), IZ > IR otherwise changes nothing, IZ = IR raises IR iff |K| exceeds the largest |turn|; nothing else changes.  After the inner loop K is pushed, the largest
-    |turn| is updated and the detector's fields mirror the locals.  (That the whole run equals the machine MH is the induction over these steps - bounded stand-in.)"""
+    |turn| is updated.  (That the whole run equals the machine MH is the induction over these steps - bounded stand-in.)"""
     from pv.interp import Obj, Opaque
     cls = o.cls(FKM)
     det = Obj(cls)
@@ -232,7 +277,7 @@ def fkm_step(o):
                z3.ForAll([q], z3.Implies(z3.And(q >= 0, q < n), z3.Select(R2, q) == z3.Select(R, q)))))
         clause('after the inner loop: largest |turn| updated with |K|; IR and the recorded pairs as left by the inner loop', p.pc,
                z3.And(E['max_turn'] == z3.If(ab(k) >= mx, ab(k), mx), E['ir'] == ir, E['from_vals'][1] == S['from_vals'][1], E['to_vals'][1] == S['to_vals'][1]))
-        clause('after the inner loop: the fields mirror the locals (state carried to the next chunk)', p.pc, z3.And(E['self._ir'] == E['ir'], E['self._max_turn'] == E['max_turn']))
+        # (that the fields self._ir / self._max_turn hold the final values when process returns is the write-back obligation of fkm.process.loop)
     for label, fs in clauses.items():
         o.prove(label + f' (all {len(fs)} paths)' if False else label, z3.And(*fs), kind='refine')
     o.note(f"{len(inner)} paths through the inner loop body, {len(outer)} through the rest of the outer body")
@@ -261,21 +306,25 @@ def b_find_turns(ctx):
     from specs.rainflow_spec import TP
     import numpy as np
     N = 8 if ctx.tier == 'quick' else 11
-    ctx.bound = f"all signals over alphabet {{0,1,2}} of length 1..{N}"
+    ctx.bound = f"all signals over a three-letter alphabet of length 1..{N}, the letters read as (0,1,2), (0,1e-9,2e-9), (0,1,1+1e-9), (0,1e-9,1)"
     ctx.rule = "non-trivial: the signal has at least one turning point; distinct by signal"
     ctx.exhaustive = True
     ft = rf().find_turns
+    # the three letters stand for values: as they are, all three within 2e-9 of each other, and two of them 1e-9 apart next to a third far away (a "plateau" is a
+    # run of EQUAL samples, however close unequal ones are - added after seed C02-d / C03-b replaced the equality by np.isclose)
+    maps = {'plain': (0.0, 1.0, 2.0), 'tiny': (0.0, 1e-9, 2e-9), 'close-high': (0.0, 1.0, 1.0 + 1e-9), 'close-low': (0.0, 1e-9, 1.0)}
     for s in signals(3, N):
         if not ctx.mine():
             continue
-        x = np.asarray(s, dtype=float)
-        idx, vals = ft(x)
         want = TP(s)
-        ctx.case(len(want) > 0, key=s)
-        if list(map(int, idx)) != want or [float(v) for v in vals] != [float(s[p]) for p in want]:
-            ctx.fail('C02:find_turns', f'find_turns({list(s)}) = {list(map(int, idx))}, spec TP = {want}',
-                     f"import numpy as np\nfrom pylife.stress.rainflow import find_turns\nprint(find_turns(np.array({list(s)}, dtype=float)))\n# expected turning points at {want}\n"
-                     f"assert list(find_turns(np.array({list(s)}, dtype=float))[0]) == {want}")
+        for mname, mp in maps.items():
+            x = np.asarray([mp[v] for v in s], dtype=float)
+            idx, vals = ft(x)
+            ctx.case(len(want) > 0, key=(mname,) + tuple(s))
+            if list(map(int, idx)) != want or [float(v) for v in vals] != [float(x[p]) for p in want]:
+                ctx.fail(f'C02:find_turns:{mname}', f'find_turns({x.tolist()}) = {list(map(int, idx))}, spec TP = {want}',
+                         f"import numpy as np\nfrom pylife.stress.rainflow import find_turns\nprint(find_turns(np.array({x.tolist()}, dtype=float)))\n# expected turning points at {want}\n"
+                         f"assert list(find_turns(np.array({x.tolist()}, dtype=float))[0]) == {want}")
     ctx.sample({'signal': [0, 1, 1, 0, 2, 2, 1], 'TP': TP([0, 1, 1, 0, 2, 2, 1])})
 
 
@@ -287,7 +336,7 @@ def b_detectors(ctx):
     from contracts.rainflow_bounded import run, signals
     from specs.rainflow_spec import TP, M4, MH
     A, N = (4, 9) if ctx.tier == 'quick' else (5, 9)
-    ctx.bound = f"all signals over alphabet {{0..{A-1}}} of length 2..{N} (ties, plateaus, constant stretches included); plus 302 (thorough 3002) seeded signals k*1000 + m*1e-5 with neighbouring ranges closer than single precision"
+    ctx.bound = f"all signals over alphabet {{0..{A-1}}} of length 2..{N} (ties, plateaus, constant stretches included); plus 302 (thorough 3002) seeded signals k*1000 + m*1e-5 with neighbouring ranges closer than single precision and 100 (1000) signals k + m*1e-9"
     ctx.rule = "non-trivial: at least one closed cycle; distinct by signal"
     ctx.exhaustive = True
     for s in signals(A, N, 2):
@@ -327,6 +376,9 @@ def b_detectors(ctx):
     near = [[1.0, 16777217.0, 0.0, 16777218.0, 5.0], [0.0, 100.0, -1e-06, 101.0, 50.0]]
     for _ in range(300 if ctx.tier == 'quick' else 3000):
         near.append([rng.randrange(4) * 1000.0 + rng.randrange(4) * 1e-5 for _ in range(rng.randrange(5, 13))])
+    for _ in range(100 if ctx.tier == 'quick' else 1000):
+        # mixed scales: steps of 1e-9 next to steps of order one (creep before a reversal)
+        near.append([float(rng.randrange(3)) + rng.randrange(3) * 1e-9 for _ in range(rng.randrange(5, 13))])
     for s in near:
         if not ctx.mine():
             continue
